@@ -48,6 +48,20 @@ type C11Case struct {
 
 type c11 struct{}
 
+// RaceCounts: a command that ends with an error is on its error path, where the statement promises nothing
+// (phase: a worker writes the shared error variable while Phase returns it).
+// RaceRelevant: the error field of an AlignChannel is written by the parser goroutine and read by commands while
+// the stream is still being parsed. Whether that changes a byte of output is decided by the comparison of two
+// schedules (every channel operation of the parser goroutine is a scheduling point), not by the race detector; what
+// the detector is for here is the computation inside the workers, which the cooperative scheduler runs atomically.
+func (c11) RaceRelevant(text string) bool {
+	return !strings.Contains(text, "phylip.(*Parser).ParseMultiple") && !strings.Contains(text, "utils.ParseMultiAlignmentsAuto")
+}
+
+func (c11) RaceCounts(ci interface{}, o *Outcome) bool {
+	return o.Stats["command_failed_in_process"] == 0 && o.Stats["command_exited_nonzero_in_process"] == 0
+}
+
 func init() { Register(c11{}) }
 
 func (c11) ID() string       { return "C11" }
@@ -280,6 +294,9 @@ func (c11) Gen(rs uint64, tier string, race bool) interface{} {
 		c.Mode = "pipeline-distboot"
 	case x <= 8:
 		c.Mode = "sched"
+	}
+	if race {
+		c.Mode = "sched" // the race detector only sees what runs in this process
 	}
 	// unaligned sequences with an ORF (C16's generator)
 	oc := c16{}.Gen(r.U64(), tier, false).(*C16Case)
